@@ -10,7 +10,7 @@ EXTENDS Common
 
 Forms    == {"zero", "one", "two", "few", "many", "other"}
 NonOther == Forms \ {"other"}
-Types    == {"cardinal", "ordinal"}
+RuleTypes == {"cardinal", "ordinal"}
 
 \* member: [form, ty];  a base's members are a set of members
 M(form, ty) == [form |-> form, ty |-> ty]
